@@ -22,6 +22,16 @@ CLAIMED.update({
   note="The scan step function dictScanUnlocked itself (loop structure, match filtering) and the composition lemma over steps are not yet under contract; this check decides the placement/cursor arithmetic only. Trusted: govc, solvers.",
   design="DESIGN.md §6 C17"),
 })
+CLAIMED.update({
+ "C08": dict(
+  text="Deductive proof of the lock discipline that atomicity rests on, for all 111 store methods (the real bodies, every path incl. early returns and deferred unlocks): every read or write of store state (keyspace table, key objects, list nodes, hash/set tables, wait table) happens while the store lock is held (ghost 'held'), the lock is acquired at most once per command and released on every exit, helpers that assume the lock are only called with it, and typed accessors/key objects keep the tag-payload invariant. Linearizability then follows by the standard argument: each command's effect and reply are computed inside one critical section of one mutex.",
+  note="The composition step (one critical section per command => linearizable) is an argument over the proved per-method obligations, not itself machine-checked; the Go mutex and memory model are trusted; lock()/unlock()/acquireExclusive() wrappers and the keyspace dictionary are trusted contracts (listed in evidence); the two-store lock order of COPY/MOVE across databases is undecided (single ghost lock bit). Six methods that touched the key object after unlocking were found and repaired (known_findings.txt).",
+  design="DESIGN.md §6 C08"),
+ "C16": dict(
+  text="Deductive guard discipline: every access to a field with a declared guard (all store state, guarded by the store lock) in the 111 store methods and the key-object helpers carries a discharged obligation that the guard is held; two such accesses are therefore ordered by the mutex. Same obligations as C08, claimed here for the data-race reading.",
+  note="Covers store state only: per-connection state read by other connections (CLIENT LIST/INFO), info counters, the shared command grammar, package counters and channel-ordered hand-offs are not yet under a declared guard and are not decided; a proved guard discipline is a sufficient condition for the declared fields only, it is not a run of the race detector.",
+  design="DESIGN.md §6 C16"),
+})
 NOT_BUILT = {}
 ALL = ["C%02d" % i for i in range(1, 21)]
 
